@@ -5,11 +5,11 @@ PROPS = {
     'C01': ['contracts.c12_cbc_check', 'contracts.recordlayer', 'contracts.sendmsg', 'contracts.m2_posthandshake', 'contracts.m2_recordio', 'contracts.transport', 'contracts.small_extras', 'contracts.m2_tls13_states'],
     'C02': ['contracts.c12_cbc_check', 'contracts.recordlayer', 'contracts.m2_recordlayer', 'contracts.m2_recordio', 'contracts.m2_getmsg', 'contracts.defragmenter', 'contracts.ciphers'],
     'C18': ['contracts.sessioncache'],
-    'C19': ['contracts.settings', 'contracts.m2_server', 'contracts.m2_client'],
+    'C19': ['contracts.settings', 'contracts.m2_server', 'contracts.m2_client', 'contracts.settings_copy'],
     'C20': ['contracts.suites', 'contracts.m2_client', 'contracts.m2_server', 'contracts.m2_factory'],
-    'C03': ['contracts.suites', 'contracts.m2_client', 'contracts.m2_server', 'contracts.m2_keyschedule', 'contracts.m2_tls13_states', 'contracts.m2_exporter', 'contracts.m2_factory'],
-    'C05': ['contracts.m2_client13', 'contracts.m2_client', 'contracts.m2_posthandshake', 'contracts.m2_server', 'contracts.m2_signverify', 'contracts.m2_binders', 'contracts.m2_server13'],
-    'C04': ['contracts.m2_client', 'contracts.m2_getmsg', 'contracts.m2_server', 'contracts.m2_keyschedule', 'contracts.m2_binders', 'contracts.m2_client13_order'],
+    'C03': ['contracts.suites', 'contracts.m2_client', 'contracts.m2_server', 'contracts.m2_keyschedule', 'contracts.m2_tls13_states', 'contracts.m2_exporter', 'contracts.m2_factory', 'contracts.settings_copy'],
+    'C05': ['contracts.m2_client13', 'contracts.m2_client', 'contracts.m2_posthandshake', 'contracts.m2_server', 'contracts.m2_signverify', 'contracts.m2_binders', 'contracts.m2_server13', 'contracts.settings_copy'],
+    'C04': ['contracts.m2_client', 'contracts.m2_getmsg', 'contracts.m2_server', 'contracts.m2_keyschedule', 'contracts.m2_binders', 'contracts.m2_client13_order', 'contracts.settings_copy'],
     'C06': ['contracts.m2_client', 'contracts.m2_getmsg', 'contracts.defragmenter', 'contracts.m2_server13', 'contracts.m2_server', 'contracts.m2_client13_order'],
     'C13': ['contracts.m2_client', 'contracts.m2_posthandshake', 'contracts.m2_server', 'contracts.small_extras', 'contracts.m2_binders', 'contracts.m2_server13', 'contracts.m2_factory'],
     'C09': ['contracts.kdf', 'contracts.ciphers', 'contracts.m2_tls13_states', 'contracts.m2_exporter', 'contracts.links'],
